@@ -58,6 +58,20 @@ CATALOGUE = {
 }
 
 
+def _load_extra():
+    """selftest/mutants.d/*.json: {name: [property, file, old, new]}"""
+    d = os.path.join(VERIF, 'selftest', 'mutants.d')
+    if os.path.isdir(d):
+        for fn in sorted(os.listdir(d)):
+            if fn.endswith('.json'):
+                with open(os.path.join(d, fn)) as f:
+                    for name, v in json.load(f).items():
+                        CATALOGUE[name] = tuple(v)
+
+
+_load_extra()
+
+
 def run(name, budget):
     prop, rel, old, new = CATALOGUE[name]
     d = tempfile.mkdtemp(prefix='billiard-verif-mut-', dir='/var/tmp')
